@@ -7,6 +7,9 @@ package main
 //   flagspec  "raw <hex> <hex> ..."   argv elements between the command words and the root file (hex, "-" = empty string)
 //             "pred"                  no flags; the case lies inside the modelled space (check, print)
 //             "bal <BalCfg.Enc()>"    balance flags of the modelled space (BalCfg.Args())
+//             "tc val=<V or ->"       transcode [-v V]  (modelled space: Model/CliTranscode.v)
+//             "pfw <PfCfg.Enc()>"     portfolio weights --csv, "pfwt ..." the text table  (PfCfg.weightsArgs, Model/CliPortfolio.v)
+//             "pfr <PfCfg.Enc()>"     portfolio returns  (PfCfg.returnsArgs)
 //   tree      entries "<kind>:<hex path>:<hex content>" separated by one space; the first entry is the root file
 //             (the positional argument); kinds: F raw bytes, J structured journal (items separated by " ; ":
 //             a Dir.Enc() or "I <hex include path>"), U unreadable (chmod 000; a directory when running as
@@ -153,7 +156,8 @@ var c14CmdWords = map[string][]string{
 	"transcode": {"transcode"}, "weights": {"portfolio", "weights"}, "returns": {"portfolio", "returns"},
 }
 
-func (c c14Case) argv() []string {
+// argv: the command line; dir is the materialised tree (the universe file of `weights` is written there)
+func (c c14Case) argv(dir string) []string {
 	root := "missing.knut"
 	if len(c.Tree) > 0 {
 		root = c.Tree[0].Path
@@ -162,6 +166,19 @@ func (c c14Case) argv() []string {
 	switch {
 	case strings.HasPrefix(c.Flags, "bal "):
 		a = DecodeBalCfg(strings.TrimPrefix(c.Flags, "bal ")).Args() // starts with "balance"
+	case strings.HasPrefix(c.Flags, "tc "):
+		a = []string{"transcode"}
+		if v := strings.TrimPrefix(strings.TrimSpace(strings.TrimPrefix(c.Flags, "tc ")), "val="); v != "-" && v != "" {
+			a = append(a, "-v", v)
+		}
+	case strings.HasPrefix(c.Flags, "pfw "):
+		pc := DecodePfCfg(strings.TrimPrefix(c.Flags, "pfw "))
+		a = pc.weightsArgs(dir, true, pc.From)
+	case strings.HasPrefix(c.Flags, "pfwt "):
+		pc := DecodePfCfg(strings.TrimPrefix(c.Flags, "pfwt "))
+		a = pc.weightsArgs(dir, false, pc.From)
+	case strings.HasPrefix(c.Flags, "pfr "):
+		a = DecodePfCfg(strings.TrimPrefix(c.Flags, "pfr ")).returnsArgs()
 	case strings.HasPrefix(c.Flags, "raw"):
 		a = append(a, c14CmdWords[c.Cmd]...)
 		for _, h := range strings.Fields(strings.TrimPrefix(c.Flags, "raw")) {
@@ -315,7 +332,7 @@ func obsC14(in string) string {
 	var out string
 	withTempDir(func(dir string) {
 		c.materialise(dir)
-		r, anyOut := runLimited(knutBin(), dir, c14Timeout, c.argv()...)
+		r, anyOut := runLimited(knutBin(), dir, c14Timeout, c.argv(dir)...)
 		// make everything removable again
 		filepath.Walk(dir, func(p string, info os.FileInfo, err error) error {
 			if err == nil && info.Mode().Perm() == 0 {
@@ -510,6 +527,81 @@ func c14Hostile(r *rng, j *Journal, cfg *BalCfg) string {
 	return "none"
 }
 
+// c14LateFailure appends a directive that loads but is rejected while the days are processed (by the checker, or by
+// Valuate for want of a price): the failures that only the processors of a command can report
+func c14LateFailure(r *rng, j *Journal, o genOpts) string {
+	accs := journalAccounts(*j)
+	var al []string
+	for _, a := range accs {
+		if isAL(a) {
+			al = append(al, a)
+		}
+	}
+	if len(al) == 0 || len(accs) < 2 {
+		return "none"
+	}
+	a := pick(r, al)
+	other := pick(r, accs)
+	if other == a {
+		other = accs[0]
+	}
+	day := dateStr(o.startDate.AddDate(0, 0, o.days/2+r.intn(o.days/2+1)))
+	switch r.intn(4) {
+	case 0: // a booking on an account that was never opened
+		*j = append(*j, Dir{Kind: 'T', Date: day, Desc: "unopened", Bookings: []Booking{{a, "Assets:NeverOpened", "7", "CHF"}}})
+		return "unopened-account"
+	case 1: // an assertion that does not hold
+		*j = append(*j, Dir{Kind: 'A', Date: day, Bals: []Bal{{a, "123456789.5", "CHF"}}})
+		return "failed-assertion"
+	case 2: // an account opened twice
+		*j = append(*j, Dir{Kind: 'O', Date: day, Acc: a})
+		return "opened-twice"
+	default: // a position in a commodity that has no price (an error only under a valuation)
+		*j = append(*j, Dir{Kind: 'T', Date: day, Desc: "unpriced", Bookings: []Booking{{other, a, "3", "NOPRICE"}}})
+		return "no-price"
+	}
+}
+
+// c14More turns a case of the modelled space into one for transcode, weights or returns
+func c14More(r *rng, c *c14Case, cfg BalCfg, o genOpts) {
+	val := cfg.Val
+	if val == "-" || val == "" {
+		val = pick(r, []string{"CHF", "CHF", "USD", "-"})
+	}
+	switch r.intn(3) {
+	case 0:
+		c.Cmd = "transcode"
+		if r.chance(10) {
+			val = pick(r, []string{"-", "XYZ"})
+		}
+		c.Flags = "tc val=" + val
+	case 1:
+		pc := PfCfg{From: cfg.From, To: cfg.To, Interval: cfg.Interval, Last: cfg.Last, Val: val, Acc: cfg.Acc, Com: cfg.Com,
+			Map: cfg.Map, Alpha: r.chance(50), Uni: "-", WFrom: "-"}
+		// the mapping of weights works on class paths ("Other:CHF", or the universe's classes)
+		if len(pc.Map) == 0 && r.chance(40) {
+			pc.Map = []string{pick(r, []string{"1", "1,^Other", "0,CHF", "2,^Other", "1:1,^Other", "1,^Cash", "0,^Cash"})}
+		}
+		if r.chance(30) && len(o.commodities) > 0 {
+			pc.Uni = "Cash=" + strings.Join(o.commodities[:1+r.intn(len(o.commodities))], ",")
+			if r.chance(10) {
+				pc.Uni += ";Dup=" + o.commodities[0] // a commodity in two classes: LoadUniverse rejects it
+			}
+		}
+		c.Cmd = "weights"
+		if r.chance(70) {
+			c.Flags = "pfw " + pc.Enc()
+		} else {
+			c.Flags = "pfwt " + pc.Enc()
+		}
+	default:
+		pc := PfCfg{From: cfg.From, To: cfg.To, Interval: cfg.Interval, Last: cfg.Last, Val: val, Acc: cfg.Acc, Com: cfg.Com,
+			Alpha: false, Uni: "-", WFrom: "-"}
+		c.Cmd = "returns"
+		c.Flags = "pfr " + pc.Enc()
+	}
+}
+
 func rawFlags(args ...string) string {
 	var p []string
 	for _, a := range args {
@@ -694,6 +786,14 @@ func genC14(out *caseWriter, seed uint64, n int, args []string) error {
 			if r.chance(45) {
 				c14Hostile(r, &j, &cfg)
 			}
+			// a third of these cases go through transcode / portfolio weights / portfolio returns instead, with the
+			// same tree shape and (hostile) window, valuation and mapping flags.  A separate random stream: the
+			// cases of the other commands stay what they were.
+			more := newRng(seed, "C14more", i)
+			convert := more.chance(34)
+			if convert && more.chance(30) {
+				c14LateFailure(more, &j, o)
+			}
 			shape := "single"
 			if r.chance(55) {
 				shape = pick(r, c14Shapes)
@@ -708,6 +808,9 @@ func genC14(out *caseWriter, seed uint64, n int, args []string) error {
 				c.Flags = "bal " + cfg.Enc()
 			} else {
 				c.Flags = "pred"
+			}
+			if convert {
+				c14More(more, &c, cfg, o)
 			}
 		case k < 65: // arbitrary bytes and mutated journals, all commands
 			cmd := pick(r, c14Cmds)
